@@ -30,7 +30,7 @@ TEMPLATES = {
     'expr': [["v({k}, '{o}')"], ["(v({k}, '{o}'))"], ["await aw({k}, '{o}')"],
              ["(w{k} := v({k}, '{o}'))"]],                                  # an expression statement that binds a name
     'semi': [["y{k} = 1; v({k}, '{o}')"]],
-    'cmt': [["# just a comment {k}"], ["#comment{k}"]],
+    'cmt': [["# just a comment {k}"], ["#comment{k}"]],          # (C13 adds [""] through EXTRA: an empty prompt line, '>>>' alone)
     'ml2': [["x{k} = p({k},", "       '{o}')"],
             ["x{k} = \\", "    p({k}, '{o}')"],
             ["x{k} = {{'a': p({k}, '{o}'),", "     'b': [1, 2]}}"],
@@ -168,7 +168,7 @@ def render(case, rot, tabs=False, extra_indent=0, texts=None, dirs=None):
     out = []
     counters = {}
     textno = 0
-    for (k, ind, sid) in case['lines']:
+    for lineno_, (k, ind, sid) in enumerate(case['lines']):
         pad = ' ' * (4 * ind + extra_indent)
         if k == 'blank':
             out.append('')
@@ -190,6 +190,12 @@ def render(case, rot, tabs=False, extra_indent=0, texts=None, dirs=None):
         if k == 'bare':
             out.append(pad + '...')
             continue
+        if tpl == [""]:
+            # an empty prompt line stands for a comment-only line wherever another prompt line (or nothing at all) follows it; as the LAST line of a
+            # chunk it would not (a comment there is a statement of its own for the mode of the chunk, an empty line is not)
+            nxt = case['lines'][lineno_ + 1] if lineno_ + 1 < len(case['lines']) else None
+            if not (nxt is None or (nxt[0] == 'p1' and nxt[1] == ind)):
+                tpl = TEMPLATES['cmt'][0]
         code = tpl[j].format(k=sid, o='o%d' % sid)
         n = len(tpl)
         if b['dir'] != 'none':
